@@ -20,9 +20,11 @@ xvars == <<xcase, xphase, xsel>>
 
 \* ---- crystals: basis in quarter units of a cubic cell of edge 4, nx x ny x nz cells ---------------------------------------
 Basis == [ sc |-> << <<0,0,0,1>> >>, fcc |-> << <<0,0,0,1>>, <<2,2,0,1>>, <<2,0,2,1>>, <<0,2,2,1>> >>,
-           bcc |-> << <<0,0,0,1>>, <<2,2,2,1>> >>, B2 |-> << <<0,0,0,1>>, <<2,2,2,2>> >> ]
+           bcc |-> << <<0,0,0,1>>, <<2,2,2,1>> >>, B2 |-> << <<0,0,0,1>>, <<2,2,2,2>> >>,
+           \* diamond cubic: the atomic sites are NOT centres of inversion (reversing the neighbour vectors gives another set)
+           dia |-> << <<0,0,0,1>>, <<2,2,0,1>>, <<2,0,2,1>>, <<0,2,2,1>>, <<1,1,1,1>>, <<3,3,1,1>>, <<3,1,3,1>>, <<1,3,3,1>> >> ]
 \* squared neighbour cutoffs (grid units) that select complete shells: first shell, first two shells
-Cuts == [ sc |-> <<18, 33>>, fcc |-> <<10, 17>>, bcc |-> <<14, 18>>, B2 |-> <<14, 18>> ]
+Cuts == [ sc |-> <<18, 33>>, fcc |-> <<10, 17>>, bcc |-> <<14, 18>>, B2 |-> <<14, 18>>, dia |-> <<5, 10>> ]
 Size == <<3, 3, 4>>
 Atoms(cr) == LET b == Basis[cr]  nb == Len(b)  n == Size[1] * Size[2] * Size[3] * nb IN
     [k \in 1..n |-> LET c == (k - 1) \div nb  bi == ((k - 1) % nb) + 1
